@@ -75,6 +75,8 @@ impl Signal {
 enum Op {
     Ack(u32),
     Close,
+    /// the local half-close (`MuxStream::do_shutdown`, `&self`) performed by the other thread
+    Shutdown,
 }
 
 #[derive(Clone, Debug, PartialEq, Eq, Hash)]
@@ -89,12 +91,12 @@ struct Scenario {
 
 impl Scenario {
     fn encode(&self) -> String {
-        let ops: Vec<String> = self.ops.iter().map(|o| match o { Op::Ack(n) => format!("a{n}"), Op::Close => "c".into() }).collect();
+        let ops: Vec<String> = self.ops.iter().map(|o| match o { Op::Ack(n) => format!("a{n}"), Op::Close => "c".into(), Op::Shutdown => "s".into() }).collect();
         format!("{}:{}:{}:{}", self.c0, self.want, self.writers, ops.join(","))
     }
     fn decode(s: &str) -> Scenario {
         let p: Vec<&str> = s.split(':').collect();
-        let ops = p[3].split(',').filter(|x| !x.is_empty()).map(|x| if x == "c" { Op::Close } else { Op::Ack(x[1..].parse().unwrap()) }).collect();
+        let ops = p[3].split(',').filter(|x| !x.is_empty()).map(|x| if x == "c" { Op::Close } else if x == "s" { Op::Shutdown } else { Op::Ack(x[1..].parse().unwrap()) }).collect();
         Scenario { c0: p[0].parse().unwrap(), want: p[1].parse().unwrap(), writers: p[2].parse().unwrap(), ops }
     }
     fn grants(&self) -> u32 {
@@ -102,6 +104,9 @@ impl Scenario {
     }
     fn closes(&self) -> bool {
         self.ops.contains(&Op::Close)
+    }
+    fn shuts(&self) -> bool {
+        self.ops.contains(&Op::Shutdown)
     }
 }
 
@@ -169,9 +174,14 @@ fn execute(sc: &Scenario) {
     // the "connection task" thread
     let ops = sc.ops.clone();
     let trace2 = trace.clone();
+    let stream2 = stream.clone();
     let other = shuttle::thread::spawn(move || {
         for op in ops {
             match op {
+                Op::Shutdown => {
+                    stream2.do_shutdown();
+                    trace2.lock().unwrap().push(b's');
+                }
                 Op::Ack(n) => {
                     stream_data.acknowledge(n);
                     trace2.lock().unwrap().push(b'a');
@@ -199,7 +209,7 @@ fn execute(sc: &Scenario) {
     let budget = sc.c0 + sc.grants();
     assert!(total_sent <= budget, "C12-credit: {total_sent} frames sent with only {budget} units of credit ever available (scenario {})", sc.encode());
     assert_eq!(left, budget - total_sent, "C12-credit: credit left {left} != initial {} + grants {} - sent {total_sent} (scenario {})", sc.c0, sc.grants(), sc.encode());
-    if !sc.closes() {
+    if !sc.closes() && !sc.shuts() {
         assert!(!any_closed, "C12-close: a writer saw the stream closed although nobody closed it");
         if sc.writers == 1 {
             assert_eq!(total_sent, sc.want * sc.writers, "C12-progress: writers finished early");
@@ -225,7 +235,7 @@ fn scenarios(thorough: bool) -> Vec<Scenario> {
             for writers in 1..=1u32 {
                 let need = want * writers;
                 // op lists: every list of <= 3 ops over {Ack(n), Close} that guarantees termination
-                let alphabet: Vec<Op> = acks.iter().map(|n| Op::Ack(*n)).chain(core::iter::once(Op::Close)).collect();
+                let alphabet: Vec<Op> = acks.iter().map(|n| Op::Ack(*n)).chain([Op::Close, Op::Shutdown]).collect();
                 let mut lists: Vec<Vec<Op>> = vec![vec![]];
                 let maxlen = if thorough { 3 } else { 2 };
                 for _ in 0..maxlen {
@@ -246,8 +256,9 @@ fn scenarios(thorough: bool) -> Vec<Scenario> {
                     // the writers must be able to finish: enough credit in total, or a close at the very end
                     let enough = sc.c0 + sc.grants() >= need;
                     let closes_last = sc.ops.last() == Some(&Op::Close);
+                    // (a local shutdown alone wakes nobody: the writer ends by credit, or by the close that follows)
                     if (enough && !sc.closes()) || closes_last {
-                        if sc.ops.iter().filter(|o| **o == Op::Close).count() <= 1 {
+                        if sc.ops.iter().filter(|o| **o == Op::Close).count() <= 1 && sc.ops.iter().filter(|o| **o == Op::Shutdown).count() <= 1 {
                             v.push(sc);
                         }
                     }
@@ -447,7 +458,7 @@ fn verif_c12() {
     let wall = t0.elapsed().as_secs_f64();
     let samples_json: Vec<String> = samples.iter().map(|s| format!("{{\"scenario_c0_want_writers_ops\": \"{s}\"}}")).collect();
     let ev = format!(
-        "{{\n \"property_id\": \"{prop}\",\n \"tier\": \"{tier}\",\n \"seed\": {},\n \"level\": \"exploration\",\n \"coverage\": {{\n  \"evaluations\": {runs},\n  \"distinct_nontrivial\": {distinct},\n  \"rule\": \"scenarios = initial credit 0..2 x frames wanted 1..3 (one writer thread, polling again after every wake-up) x every list of <= {} operations over {{acknowledge(n), disallow_write}} performed by another thread that lets the writers terminate, plus two threads polling the same stream concurrently without waiting (credit clause only; initial credit 0..2 x 1..2 polls each x <= 2 operations) ({} scenarios in total); each scenario explored under shuttle's random scheduler ({iters_random} schedules) and PCT with depth 2 and 3 ({iters_pct} schedules each), seeded from VERIF_SEED; every access to the credit counter, the finish flag and the waker is a scheduling point. evaluations = executions (schedules) run; non-trivial = an execution in which a writer's poll returned Pending (it had to be woken by the other thread); distinct = distinct (scenario, event trace) pairs among those.\",\n  \"samples\": [{}],\n  \"scenarios\": {},\n  \"executions_with_blocked_writer\": {blocked},\n  \"exhaustive\": false\n }},\n \"assumptions\": [\"shuttle explores interleavings at atomic-operation granularity under sequential consistency; reorderings only allowed by the C11 memory model for Relaxed accesses are not explored\", \"the code under test (stream.rs, lib.rs, task.rs) is compiled unmodified from /repo's working tree; only the loom dependency is redirected to a shuttle-backed facade and this test module is added in a scratch copy\", \"the AtomicWaker of the facade is a mutex-protected Option<Waker> with the documented register/wake contract\"],\n \"wall_s\": {:.3},\n \"violations\": {violations}\n}}\n",
+        "{{\n \"property_id\": \"{prop}\",\n \"tier\": \"{tier}\",\n \"seed\": {},\n \"level\": \"exploration\",\n \"coverage\": {{\n  \"evaluations\": {runs},\n  \"distinct_nontrivial\": {distinct},\n  \"rule\": \"scenarios = initial credit 0..2 x frames wanted 1..3 (one writer thread, polling again after every wake-up) x every list of <= {} operations over {{acknowledge(n), disallow_write (close by the connection task), do_shutdown (local half-close)}} performed by another thread that lets the writers terminate, plus two threads polling the same stream concurrently without waiting (credit clause only; initial credit 0..2 x 1..2 polls each x <= 2 operations) ({} scenarios in total); each scenario explored under shuttle's random scheduler ({iters_random} schedules) and PCT with depth 2 and 3 ({iters_pct} schedules each), seeded from VERIF_SEED; every access to the credit counter, the finish flag and the waker is a scheduling point. evaluations = executions (schedules) run; non-trivial = an execution in which a writer's poll returned Pending (it had to be woken by the other thread); distinct = distinct (scenario, event trace) pairs among those.\",\n  \"samples\": [{}],\n  \"scenarios\": {},\n  \"executions_with_blocked_writer\": {blocked},\n  \"exhaustive\": false\n }},\n \"assumptions\": [\"shuttle explores interleavings at atomic-operation granularity under sequential consistency; reorderings only allowed by the C11 memory model for Relaxed accesses are not explored\", \"the code under test (stream.rs, lib.rs, task.rs) is compiled unmodified from /repo's working tree; only the loom dependency is redirected to a shuttle-backed facade and this test module is added in a scratch copy\", \"the AtomicWaker of the facade is a mutex-protected Option<Waker> with the documented register/wake contract\"],\n \"wall_s\": {:.3},\n \"violations\": {violations}\n}}\n",
         seed as i64,
         if thorough { 3 } else { 2 },
         scs.len(),
